@@ -259,6 +259,8 @@ def check_lookup_model(ctx):
 def run(ctx):
     from xfabsa import numeric as _N
     _N.alias_rule(ctx, 'C04', ['xfab/sg.py'])
+    from props import sgobject
+    sgobject.rule(ctx, "C04", "the tables sg.sg hands on are the tables checked here")
     ctx.rule("rows", "len(rot) == len(trans) == nsymop")
     ctx.rule("entries", "rotations integer with det +-1; translations k/24 within 1e-6")
     ctx.rule("closure", "closed under composition modulo lattice translations (all pairs)")
